@@ -408,6 +408,32 @@ def reproduce_revalidate(ctx, binp, bad_events, module, extra_env=None, chunk=4)
     return rej
 
 
+def reproduce_by_trace(ctx, binp, all_events, bad_events, extra_env=None):
+    """For stateful packages a rejection may depend on the history (caches, selected word list, reused buffers):
+    the whole trace the rejected event belongs to is replayed in a fresh process, and the rejection is confirmed when
+    the event with the same (op, input) gives the same output again."""
+    if not bad_events:
+        return []
+    confirmed = []
+    key = lambda e: digest([e.get("op"), e.get("in")])
+    for tno in sorted({b.get("t") for b in bad_events}):
+        tev = [e for e in all_events if e.get("t") == tno]
+        d = ctx.rundir("reproduce_t%s" % tno)
+        write_ndjson(os.path.join(d, "in.ndjson"), [dict(op=e["op"], **{"in": e["in"]}) for e in tev])
+        run_driver(ctx, binp, "replay", os.path.join(d, "out.ndjson"), infile=os.path.join(d, "in.ndjson"), extra_env=extra_env)
+        seen = {}
+        for a in read_ndjson(os.path.join(d, "out.ndjson")):
+            seen.setdefault(key(a), []).append(a.get("out"))
+        for b in [x for x in bad_events if x.get("t") == tno]:
+            if b.get("out") in seen.get(key(b), []):
+                confirmed.append(b)
+            else:
+                ctx.notes.append("non-reproduced rejection dropped: %s" % json.dumps(b)[:300])
+    if len(confirmed) != len(bad_events):
+        ctx.log("WARNING: %d rejected events were not reproduced" % (len(bad_events) - len(confirmed)))
+    return confirmed
+
+
 def reproduce(ctx, binp, bad_events, extra_env=None):
     """A rejected event becomes a violation only if re-running the real code on
     the same logged input gives the same rejected output (rule 1)."""
